@@ -7,10 +7,13 @@ Executable; imports only `Model/Backends.lean` (file-system state `FS`, `fget/fp
 Correspondence with the Rust code:
 * `isCacheable`         — `FileType::is_cacheable` (`backend.rs`): snapshot and index files.
 * `cpath` / `ctmp`      — `Cache::path` = `<type dir>/<hex[0..2]>/<hex>`; temp name `<hex>-tmp-` in the same directory.
-* cache directory state — regular files (`FS`) plus `dirs`, the paths at which a **directory** sits (a non-file object planted
-                          in the cache directory, e.g. at the entry path of an id: `hasDir`).  No operation of `cache.rs` removes
-                          or replaces a directory, so `dirs` is constant; a file recorded at a path of `dirs` (impossible on a
-                          real file system) is invisible to every operation.
+* cache directory state — regular files (`CD.files : FS`) plus non-file objects planted in the cache directory, e.g. at the entry
+                          path of an id: `dirs`, the paths at which a **directory** sits (`hasDir`) — no operation of `cache.rs`
+                          removes or replaces a directory, so `dirs` is constant — and `CD.links`, the paths at which a
+                          **dangling symlink** sits (`hasLink`; target in a non-existing directory) — `remove_file` and a
+                          `rename` onto it remove it.  A file recorded at a path of `dirs`/`links` (impossible on a real file
+                          system) is invisible to every operation.  For reads and the listing a dangling symlink is like
+                          nothing at all (`NotFound`; not `is_file`).
 * `cReadFull`           — `Cache::read_full`: `fs::read`, `NotFound` ⇒ `Ok(None)` (miss); a directory ⇒ `Err` (`EISDIR`);
                           **no size check**: whatever file is there is served.  `CachedBackend::read_full` logs an error and
                           goes on like after a miss (`readFullThrough`).
@@ -54,6 +57,17 @@ def ctmp (t : FileType) (id : Name) : Path := [t.dirname, id.take 2, id ++ tmpSu
 of `cache.rs` ever removes or replaces one: `remove_file` and `rename` onto it fail, the listing skips it). -/
 def hasDir (dirs : List Path) (p : Path) : Bool := dirs.contains p
 
+/-- The part of the cache directory that operations change: regular files, and DANGLING SYMLINKS (`links`: the paths at
+which one sits; its target lies in a directory that does not exist, so nothing can be read or created through it). -/
+structure CD where
+  files : FS
+  links : List Path := []
+
+def hasLink (c : CD) (p : Path) : Bool := c.links.contains p
+
+/-- `remove_file` / `rename` onto a symlink: the link is gone -/
+def unlink (c : CD) (p : Path) : CD := { c with links := c.links.filter (fun q => q != p) }
+
 /-- outcome of a cache read: `Ok(Some(data))` / `Ok(None)` / `Err(_)` -/
 inductive PRes where
   | hit (b : Bytes)
@@ -61,22 +75,25 @@ inductive PRes where
   | error
   deriving DecidableEq, Repr
 
-/-- `Cache::read_full`: `fs::read` — a directory at the path: `EISDIR` (an error, not `NotFound`). -/
-def cReadFull (dirs : List Path) (c : FS) (t : FileType) (id : Name) : PRes :=
+/-- `Cache::read_full`: `fs::read` — a directory at the path: `EISDIR` (an error, not `NotFound`); a dangling symlink:
+`ENOENT` = `NotFound`, a miss. -/
+def cReadFull (dirs : List Path) (c : CD) (t : FileType) (id : Name) : PRes :=
   if hasDir dirs (cpath t id) then .error
-  else match fget c (cpath t id) with
+  else if hasLink c (cpath t id) then .miss
+  else match fget c.files (cpath t id) with
     | some d => .hit d
     | none => .miss
 
-/-- what a cache read can serve: the regular file at the entry path, unless a directory sits there -/
-def cHit (dirs : List Path) (c : FS) (t : FileType) (id : Name) : Option Bytes :=
-  if hasDir dirs (cpath t id) then none else fget c (cpath t id)
+/-- what a cache read can serve: the regular file at the entry path, unless a directory or a dangling symlink sits there -/
+def cHit (dirs : List Path) (c : CD) (t : FileType) (id : Name) : Option Bytes :=
+  if hasDir dirs (cpath t id) || hasLink c (cpath t id) then none else fget c.files (cpath t id)
 
 /-- `Cache::read_partial`: on a directory `File::open` and `seek` succeed and `read_exact` fails with `EISDIR` — except
-for an empty buffer, which is "read" without a system call (a hit with no bytes). -/
-def cReadPartial (dirs : List Path) (c : FS) (t : FileType) (id : Name) (off len : Nat) : PRes :=
+for an empty buffer, which is "read" without a system call (a hit with no bytes).  A dangling symlink: `NotFound`. -/
+def cReadPartial (dirs : List Path) (c : CD) (t : FileType) (id : Name) (off len : Nat) : PRes :=
   if hasDir dirs (cpath t id) then (if len = 0 then .hit [] else .error)
-  else match fget c (cpath t id) with
+  else if hasLink c (cpath t id) then .miss
+  else match fget c.files (cpath t id) with
     | none => .miss
     | some d => if len = 0 ∨ off + len ≤ d.length then .hit ((d.drop off).take len) else .error
 
@@ -84,25 +101,33 @@ def cReadPartial (dirs : List Path) (c : FS) (t : FileType) (id : Name) (off len
 def cWriteFile (c : FS) (t : FileType) (id : Name) (d : Bytes) : FS :=
   fput (fdel (fput c (ctmp t id) d) (ctmp t id)) (cpath t id) d
 
-/-- `Cache::write_bytes` (every caller only logs its error): a directory at the temp path — `open` fails, nothing is
-written; a directory at the entry path — the temp file is written, `rename` onto the directory fails and the temp
-file **stays** (no clean-up after a failed rename). -/
-def cWrite (dirs : List Path) (c : FS) (t : FileType) (id : Name) (d : Bytes) : FS :=
+/-- `Cache::write_bytes` (every caller only logs its error):
+* a directory at the temp path — `open` fails (`EISDIR`), the clean-up `remove_file` too: nothing changes;
+* a dangling symlink at the temp path — `open(create)` follows it and fails (`ENOENT`), the clean-up `remove_file`
+  **removes the link**: nothing written this time;
+* a directory at the entry path — the temp file is written, `rename` onto the directory fails and the temp file **stays**
+  (no clean-up after a failed rename);
+* otherwise the entry is (re)placed — `rename` replaces a dangling symlink at the entry path like a file. -/
+def cWrite (dirs : List Path) (c : CD) (t : FileType) (id : Name) (d : Bytes) : CD :=
   if hasDir dirs (ctmp t id) then c
-  else if hasDir dirs (cpath t id) then fput c (ctmp t id) d
-  else cWriteFile c t id d
+  else if hasLink c (ctmp t id) then unlink c (ctmp t id)
+  else if hasDir dirs (cpath t id) then { c with files := fput c.files (ctmp t id) d }
+  else { files := cWriteFile c.files t id d, links := (unlink c (cpath t id)).links }
 
-/-- `Cache::remove`: `fs::remove_file` — fails on a directory (`EISDIR`), nothing changes. -/
-def cRemove (dirs : List Path) (c : FS) (t : FileType) (id : Name) : FS :=
-  if hasDir dirs (cpath t id) then c else fdel c (cpath t id)
+/-- `Cache::remove`: `fs::remove_file` — fails on a directory (`EISDIR`, nothing changes); removes a regular file or a
+symlink. -/
+def cRemove (dirs : List Path) (c : CD) (t : FileType) (id : Name) : CD :=
+  if hasDir dirs (cpath t id) then c
+  else { files := fdel c.files (cpath t id), links := (unlink c (cpath t id)).links }
 
-def cEntry (L : Nat) (dirs : List Path) (t : FileType) (e : Path × Bytes) : Option (Name × Nat) :=
+def cEntry (L : Nat) (dirs : List Path) (c : CD) (t : FileType) (e : Path × Bytes) : Option (Name × Nat) :=
   match e.1 with
   | [d, sub, n] =>
-    if d = t.dirname ∧ isCacheName L n = true ∧ sub = n.take 2 ∧ hasDir dirs e.1 = false then some (n, e.2.length) else none
+    if d = t.dirname ∧ isCacheName L n = true ∧ sub = n.take 2 ∧ hasDir dirs e.1 = false ∧ hasLink c e.1 = false
+    then some (n, e.2.length) else none
   | _ => none
 
-def cList (L : Nat) (dirs : List Path) (c : FS) (t : FileType) : List (Name × Nat) := c.filterMap (cEntry L dirs t)
+def cList (L : Nat) (dirs : List Path) (c : CD) (t : FileType) : List (Name × Nat) := c.files.filterMap (cEntry L dirs c t)
 
 def sizeOf? (list : List (Name × Nat)) (id : Name) : Option Nat :=
   match list with
@@ -111,17 +136,18 @@ def sizeOf? (list : List (Name × Nat)) (id : Name) : Option Nat :=
 
 def keepEntry (list : List (Name × Nat)) (e : Name × Nat) : Bool := sizeOf? list e.1 == some e.2
 
-def removeAll (dirs : List Path) (c : FS) (t : FileType) : List (Name × Nat) → FS
+def removeAll (dirs : List Path) (c : CD) (t : FileType) : List (Name × Nat) → CD
   | [] => c
   | e :: rest => removeAll dirs (cRemove dirs c t e.1) t rest
 
-def removeNotInList (L : Nat) (dirs : List Path) (c : FS) (t : FileType) (list : List (Name × Nat)) : FS :=
+def removeNotInList (L : Nat) (dirs : List Path) (c : CD) (t : FileType) (list : List (Name × Nat)) : CD :=
   removeAll dirs c t ((cList L dirs c t).filter (fun e => !keepEntry list e))
 
-/-- repository (an exact map, C20) + cache directory: regular files `cache`, directories planted at `dirs` -/
+/-- repository (an exact map, C20) + cache directory: regular files and dangling symlinks `cache`, directories planted
+at `dirs` -/
 structure St where
   be : SpecMap
-  cache : FS
+  cache : CD
   dirs : List Path := []
 
 def beReadFull (be : SpecMap) (t : FileType) (id : Name) : Res Bytes :=
